@@ -308,3 +308,198 @@ def run(ctx):
     _run_base(ctx)
     ctx.guard(r16_5)
     ctx.guard(r16_6)
+
+
+# ------------------------------------------------------------------------------------------------ R16.7 layout typestate
+class Ax:
+    """Abstract tensor for layout analysis: `axes` is a list of axes, each a tuple of named factors (row-major, major
+    first), each factor (name, size).  `kind` says what the elements are, in terms of the factor names."""
+
+    def __init__(self, axes, kind):
+        self.axes = [tuple(a) for a in axes]
+        self.kind = kind
+
+    def __repr__(self):
+        return f"{self.kind}{['*'.join(n for n, _ in a) for a in self.axes]}"
+
+
+class LayoutError(Exception):
+    pass
+
+
+def _norm(i, n):
+    i = int(i)
+    return i if i >= 0 else n + i
+
+
+class LayoutHooks(FwdHooks):
+    """Index-layout semantics of the shape operations used by the fast Levy-area Jacobian."""
+    B, D, M = ("batch", "B"), ("d", "D"), ("m", "M")
+
+    def __init__(self):
+        super().__init__()
+        self.jvp_calls = []
+        self.errors = []
+
+    def tensor_attr(self, interp, recv, name, node, fi):
+        if name == "requires_grad":
+            return False
+        return NotImplemented
+
+    def external_call(self, interp, dotted, args, kwargs, node, fi):
+        if dotted == "torch.is_grad_enabled":
+            return True
+        if dotted == "torch.bmm":
+            g, a = args
+            return Ax([g.axes[0], g.axes[1], a.axes[2]], "ga")          # ga[n, j, l] = sum_k g[n, j, k] a[n, k, l]
+        if dotted == "torch.repeat_interleave":
+            x = args[0]
+            reps = kwargs.get("repeats", args[1] if len(args) > 1 else None)
+            dim = _norm(kwargs.get("dim", args[2] if len(args) > 2 else 0), len(x.axes))
+            axes = list(x.axes)
+            axes[dim] = axes[dim] + (("l", str(reps)),)                  # each entry repeated consecutively: minor factor
+            return Ax(axes, x.kind + "-dup")
+        return NotImplemented
+
+
+def _ax_method(it, x, name, args, kwargs, node, fi):
+    n = len(x.axes)
+    if name == "size":
+        sizes = tuple(nf.sym("*".join(s for _, s in a), True) for a in x.axes)
+        return sizes if not args else sizes[_norm(args[0], n)]
+    if name == "detach" or name == "requires_grad_":
+        return x
+    if name == "transpose":
+        i, j = _norm(args[0], n), _norm(args[1], n)
+        axes = list(x.axes)
+        axes[i], axes[j] = axes[j], axes[i]
+        return Ax(axes, x.kind)
+    if name == "permute":
+        order = [_norm(a, n) for a in args]
+        return Ax([x.axes[k] for k in order], x.kind)
+    if name == "flatten":
+        i, j = _norm(args[0], n), _norm(args[1], n)
+        merged = tuple(f for a in x.axes[i:j + 1] for f in a)
+        return Ax(x.axes[:i] + [merged] + x.axes[j + 1:], x.kind)
+    if name == "repeat":
+        reps = list(args)
+        axes = list(x.axes)
+        for k, r in enumerate(reps):
+            if not (isinstance(r, Fraction) and r == 1):
+                axes[k] = (("l", str(r)),) + axes[k]                      # whole tensor tiled: major factor
+        return Ax(axes, x.kind + "-dup")
+    if name in ("reshape", "view"):
+        want = [str(a) for a in args]
+        flat = [f for a in x.axes for f in a]
+        if [s for _, s in flat] != want:
+            raise LayoutError(f"`{name}({', '.join(want)})` splits a tensor whose rows are laid out as "
+                              f"{[n_ for n_, _ in flat]} with sizes {[s for _, s in flat]}: the requested sizes do not "
+                              f"follow the memory order, so rows of different batch elements / columns are mixed")
+        return Ax([(f,) for f in flat], x.kind)
+    if name == "diagonal":
+        i, j = _norm(kwargs.get("dim1", 0), n), _norm(kwargs.get("dim2", 1), n)
+        a, b = x.axes[i], x.axes[j]
+        rest = [ax for k, ax in enumerate(x.axes) if k not in (i, j)]
+        return Ax(rest + [(("diag(" + "*".join(f for f, _ in a) + "=" + "*".join(f for f, _ in b) + ")", a[0][1]),)], x.kind)
+    if name == "sum":
+        d = _norm(args[0] if args else kwargs.get("dim"), n)
+        summed = x.axes[d]
+        out = Ax([ax for k, ax in enumerate(x.axes) if k != d], x.kind)
+        out.summed = getattr(x, "summed", []) + ["*".join(f for f, _ in summed)]
+        return out
+    raise AnalysisError(f"layout analysis: tensor method `.{name}` has no modelled index semantics",
+                        where=astq.loc(fi, node))
+
+
+def r16_7(ctx):
+    rep, model = ctx.rep, ctx.model
+    rep.rule("R16.7", "fast Levy-area Jacobian: index-layout typestate -- the duplicated state rows, the flattened g.a rows "
+                      "and the un-flattening reshape use the same (batch, column) row order; the diagonal pairs g's column "
+                      "with g.a's column; the result is indexed (batch, state)")
+    fwd = model.cls(BASE_SDE, "ForwardSDE")
+    fi = fwd.methods.get("dg_ga_jvp_column_sum_v2")
+    if fi is None:
+        raise AnalysisError("ForwardSDE.dg_ga_jvp_column_sum_v2 vanished", where=BASE_SDE)
+    rep.analysed(fi)
+    hooks = LayoutHooks()
+    B, D, Mm = ("n", "batch_size"), ("j", "d"), ("k", "m")
+
+    class H(LayoutHooks):
+        def tensor_method(self, interp, recv, name, args, kwargs, node, f2):
+            return NotImplemented
+
+        def on_call(self, interp, callee, args, kwargs, node, f2):
+            from ..interp import Closure
+            if isinstance(callee, Closure) and callee.fi is not None and callee.fi.module.relpath.endswith("misc.py") \
+                    and callee.fi.name == "jvp":
+                o, i, gi = kwargs.get("outputs"), kwargs.get("inputs"), kwargs.get("grad_inputs")
+                self.jvp_calls.append((o, i, gi, node))
+                if not (isinstance(o, Ax) and isinstance(i, Ax) and isinstance(gi, Ax)):
+                    raise AnalysisError("layout analysis: jvp called on non-tensor values", where=astq.loc(f2, node))
+                if i.axes[0] != gi.axes[0] or o.axes[0] != i.axes[0]:
+                    raise LayoutError(f"jvp pairs rows of the duplicated state laid out as {[n_ for n_, _ in i.axes[0]]} "
+                                      f"with rows of g.a laid out as {[n_ for n_, _ in gi.axes[0]]}")
+                return [Ax([o.axes[0], o.axes[1], o.axes[2]], "jvp")]
+            return NotImplemented
+    hooks = H()
+    it = Interp(model, hooks)
+
+    def g_of(it2, a, k, n2, f2):
+        y = a[1]
+        return Ax([y.axes[0], (("i", "d"),), (("k", "m"),)], "g")
+    user = Obj("user", attrs={"noise_type": "general", "sde_type": "stratonovich", "g": Intrinsic("g", g_of),
+                              "f": Intrinsic("f", lambda *a: None)})
+    obj = it.instantiate(fwd, [user], {"fast_dg_ga_jvp_column_sum": True})
+    y = Ax([(("n", "batch_size"),), (("j", "d"),)], "y")
+    a = Ax([(("n", "batch_size"),), (("k", "m"),), (("l", "m"),)], "a")
+    construct = f"{fi.key}::R16.7::layout"
+    # method calls on Ax values go through Interp.getattr -> we intercept by giving Ax a getattr path
+    try:
+        out = _run_layout(it, fi, obj, y, a)
+    except LayoutError as e:
+        rep.fail("R16.7", astq.loc(fi), construct, f"dg_ga_jvp_column_sum_v2: {e}")
+        ctx.floor("R16.7", 1)
+        return
+    ok = isinstance(out, Ax) and [tuple(n_ for n_, _ in ax) for ax in out.axes] == [("n",), ("i",)] and \
+        getattr(out, "summed", None) == ["diag(l=k)"]
+    rep.check(ok, "R16.7", astq.loc(fi), construct,
+              f"dg_ga_jvp_column_sum_v2 returns a tensor indexed {out!r} after summing {getattr(out, 'summed', None)}; the "
+              f"definition needs index (batch, state) after summing the diagonal that pairs the duplication index (g.a's "
+              f"column) with g's column", "rows consistently (batch, column); diagonal pairs the columns; result (batch, state)")
+    ctx.floor("R16.7", 1)
+
+
+def _run_layout(it, fi, obj, y, a):
+    """Evaluate the function body with Ax values; tensor methods on Ax are dispatched to _ax_method."""
+    from .. import interp as I
+    orig_getattr = it.getattr
+
+    def getattr_(base, name, node=None, f2=None, default=NotImplemented):
+        if isinstance(base, Ax):
+            if name == "requires_grad":
+                return False
+            return _AxBound(base, name)
+        return orig_getattr(base, name, node, f2, default)
+    it.getattr = getattr_
+    orig_call = it.call
+
+    def call_(callee, args, kwargs, node=None, f2=None):
+        if isinstance(callee, _AxBound):
+            return _ax_method(it, callee.x, callee.name, args, kwargs, node, f2)
+        return orig_call(callee, args, kwargs, node, f2)
+    it.call = call_
+    t = nf.sym("t", True)
+    return it.call_function(fi, [obj, t, y, a], {})
+
+
+class _AxBound:
+    def __init__(self, x, name):
+        self.x, self.name = x, name
+
+
+_run_c16b = run
+
+
+def run(ctx):
+    _run_c16b(ctx)
+    ctx.guard(r16_7)
